@@ -52,6 +52,14 @@ def main():
                                   "demo_exit_without_change": rc2, "demo_tail_without_change": out2[-600:]})
         print("confirm: suite_ok=%s demo_with=%s demo_without=%s" % (suite_ok, rc1, rc2))
     dst = os.path.join(VERIF, "seeded", name)
+    if os.environ.get("CONFIRM_ONLY") == "1":
+        # keep the recorded check results, refresh the confirmation only
+        old = json.load(open(os.path.join(dst, "meta.json")))
+        old["confirmed"] = meta["confirmed"]
+        with open(os.path.join(dst, "meta.json"), "w") as f:
+            json.dump(old, f, indent=1)
+        print("confirmation refreshed")
+        return
     shutil.rmtree(dst, ignore_errors=True)
     shutil.copytree(mdir, dst)
     # 4. run the checks against the change.  Default: applied to /repo itself and undone afterwards.
